@@ -597,6 +597,12 @@ def r02_9(ctx, prog, crate):
     ctx.anchor("R02.9", "impls of __private::Arg::get", n, 4)
 
 
+def run_extra(ctx):
+    """R02.10 the dropping of outputs happens after the end timestamp, macro side: see C12.bench_closure_returns_value."""
+    from . import C12
+    C12.bench_closure_returns_value(ctx, "R02.10")
+
+
 def run(ctx, prog, crate):
     r02_9(ctx, prog, crate)
     r02_8(ctx, prog, crate)
